@@ -35,7 +35,8 @@ func init() {
 			"in (*linter).lint the U1000 problems are produced only after the loop over all package results has finished, only under 'not used in any variant', 'used' is never overwritten by 'unused', and every variant's Used set is recorded regardless of whether U1000 is enabled for it (R17.2); " +
 			"the keys built for used and for unused objects are built from the same four origins (package path, file base name, line, name) (R17.3). " +
 			"It does NOT decide monotonicity of the rules under added references, or permutation invariance of the rule list itself." +
-			" Also decided: no map in package unused is keyed by the printed form of a go/types type or object (not injective: generic interfaces with equally named type parameters print alike).",
+			" Also decided: no map in package unused is keyed by the printed form of a go/types type or object (not injective: generic interfaces with equally named type parameters print alike)." +
+			" Every element of a variant's Used list is entered into the cross-variant map (no filtering by name or kind).",
 		RuleText:    "effect sets (field writes) closed over static callees; map-loop bodies on the SSA CFG; guard-edge and reachability queries",
 		Assumptions: []string{"reachability over a set of edges does not depend on the order in which the edges were inserted"},
 		Run:         runC17,
